@@ -512,6 +512,7 @@ def impl_run(case, deck):
     """-> (states, roots): states as the model prints them; roots = re-parsed blob per ok state."""
     init = case["init"]
     states, roots = [], []
+    case["_raw0"] = None
     extra_tags = {}
     try:
         if init[0] == "W":
@@ -531,7 +532,10 @@ def impl_run(case, deck):
     def snap():
         root = etree.fromstring(chart.part.blob)
         roots.append(root)
-        states.append(["ok", canon_chart(skeleton(root, ids, extra_tags)), impl_reads(chart)])
+        sk = skeleton(root, ids, extra_tags)
+        if case["_raw0"] is None:
+            case["_raw0"] = copy.deepcopy(sk)
+        states.append(["ok", canon_chart(sk), impl_reads(chart)])
 
     snap()
     for d in case["ops"]:
@@ -545,17 +549,20 @@ def impl_run(case, deck):
     return states, roots, chart, msg
 
 
-def model_case(case, first_state, succs):
+def model_case(case, succs):
+    """Token stream of the case for the model; charts that do not come from a writer are
+    given as the skeleton extracted from the implementation's first state."""
     t = ["hist"]
     for s in succs:
         t.append(len(s))
         t += s
     init = case["init"]
-    if init[0] == "W":
-        t += [0, init[1]] + data_tokens(init[2])
+    raw0 = case.pop("_raw0", None)
+    if init[0] == "W" or raw0 is None:
+        t += [0, init[1] if init[0] != "S" else 0] + data_tokens(init[2] if init[0] != "S" else {"k": "xy", "nf": "", "sers": []})
     else:
         t.append(1)
-        t += chart_tokens(first_state)
+        t += chart_tokens(raw0)
     t.append(len(case["ops"]))
     for d in case["ops"]:
         t += data_tokens(d)
@@ -755,12 +762,15 @@ def xsd_problems(root):
         if el in ("axId", "crossAx") and attr == "val" and re.match(r"'-\d+' is not a valid value of the atomic type 'xs:unsignedInt'", rest):
             sig = "xsd:negative-axis-id"
             msg = "c:axId / c:crossAx val is negative in the writer's template; the schema type is xsd:unsignedInt (%s)" % e.message[:160]
-        elif el in ("catAx", "valAx", "dateAx", "serAx", "dTable", "spPr", "extLst") and "This element is not expected" in rest and not xcharts(root):
+        elif not xcharts(root) and ((el in ("catAx", "valAx", "dateAx", "serAx", "dTable", "spPr", "extLst") and "This element is not expected" in rest) or (el == "plotArea" and "Missing child element" in rest)):
             sig = "xsd:plotArea-without-plot"
-            msg = "c:plotArea is left without any xChart element (the schema requires at least one): %s" % e.message[:200]
+            msg = "replace_data with chart data that has no series removes every xChart: c:plotArea is left without any (the schema requires at least one): %s" % e.message[:200]
         else:
             sig = "xsd:%s:%s%s" % (e.type_name.replace("SCHEMAV_", ""), el, "@" + attr if attr else "")
             msg = e.message[:300]
+            if el == "smooth" and root.xpath("//c:radarChart/c:ser/c:smooth", namespaces=NSMAP):
+                sig = "xsd:radar-series-has-smooth"
+                msg = "the radar writer puts c:smooth into c:ser of c:radarChart; CT_RadarSer has no such child (%s)" % e.message[:200]
         out.setdefault(sig, msg)
     return sorted(out.items())
 
@@ -1076,7 +1086,10 @@ def check_case(ck, case, deck, types_by_ct, report=True):
         if st[0] == "err":
             if k == 0:
                 # creation failed: in the property's domain that is a violation by itself
-                if not case["class"].startswith("malformed/"):
+                d0 = init[2] if init[0] in ("W", "G") else None
+                if d0 and d0["k"] == "cat" and d0["cats"] and d0["cats"][0][0][0] in ("d", "t") and '"' in (d0.get("fmt") or "") and "construct error" in (msg or ""):
+                    problems.append(("number-format-quote-breaks-date-axis", "add_chart raises XMLSyntaxError (%s) for date categories whose number format contains a double quote: the area, bar and line writers paste categories.number_format unescaped into the formatCode attribute of c:dateAx/c:numFmt" % msg))
+                elif not case["class"].startswith("malformed/"):
                     problems.append(("add-chart-raises", "add_chart raised %s" % msg))
             else:
                 prev_root = roots[ri - 1]
@@ -1104,7 +1117,7 @@ def report_problems(ck, case, problems, states):
         if sig in seen:
             continue
         seen.add(sig)
-        ck.violation(sig, what, {"entry_point": "shapes.add_chart / Chart.replace_data", "input": case,
+        ck.violation(sig, what, {"entry_point": "shapes.add_chart / Chart.replace_data", "input": dict((k, v) for k, v in case.items() if k != "_raw0"),
                                  "impl_outcome": [s[0] if s[0] == "ok" else s for s in states]})
 
 
@@ -1122,12 +1135,11 @@ def run(ck, tier, rng):
     model_in, impl_states = [], []
     for case in cases:
         states, problems, _msg = check_case(ck, case, deck, types_by_ct)
-        ck.count(json.dumps(case, sort_keys=True, default=str), nontrivial(case), case["class"].split("/")[0] if case["class"].startswith(("corpus", "malformed")) else case["class"].split("/")[-1])
+        ck.count(json.dumps(dict((k, v) for k, v in case.items() if k != "_raw0"), sort_keys=True, default=str), nontrivial(case), case["class"].split("/")[0] if case["class"].startswith(("corpus", "malformed")) else case["class"].split("/")[-1])
         ck.dist["states"] = ck.dist.get("states", 0) + len(states)
         report_problems(ck, case, problems, states)
         impl_states.append(states)
-        first = states[0][1] if states and states[0][0] == "ok" else [0, 0, []]
-        model_in.append(model_case(case, first, succs))
+        model_in.append(model_case(case, succs))
     for c in cases[:2] + [c for c in cases if c["class"].startswith("corpus")][:2] + [c for c in cases if "multi34" in c["class"]][:1]:
         ck.sample({"class": c["class"], "init": c["init"][:2] if c["init"][0] != "S" else c["init"], "n_ops": len(c["ops"])}, limit=8)
     concrete_before = len(ck.violations) + len(ck.known_hits)
@@ -1166,8 +1178,7 @@ def replay(rec):
         pass
 
     states, problems, msg = check_case(_Ck(), case, Deck(), types_by_ct)
-    first = states[0][1] if states and states[0][0] == "ok" else [0, 0, []]
-    line = run_model("C07", [model_case(case, first, live_succs())])[0]
+    line = run_model("C07", [model_case(case, live_succs())])[0]
     ms = conv_states(line)
     print("case class", case.get("class"), "init", case["init"][:2])
     print("impl states", [s[0] if s[0] == "ok" else s for s in states], msg or "")
